@@ -51,10 +51,10 @@ theorem not_held_of_unregistered {tr : Trace} {endT : Int} (hwf : WFP tr endT)
     obtain ⟨sd2, hsd2, _, h2t, h2d, h2b⟩ := mcastAt_iff.mp g2
     obtain ⟨sd3, hsd3, _, h3t, h3d, h3b⟩ := mcastAt_iff.mp g3
     have hup' : upAt tr h e.t = true := heh ▸ hup
-    rcases k7b_reach (endT := endT) hsd2 (by rw [h2d]; rfl) (upAt_mono (t' := sd2.t) hup' (by omega)) hopen (by omega) with
+    rcases k7b_reach (endT := endT) hsd2 (by rw [h2d]; rfl) (upBefore_of_upAt (t' := sd2.t) hup' (by omega)) hopen (by omega) with
       ⟨g, hg, hgh, hgi, hg1, _⟩ | ⟨o2, ho2, ho2t⟩
     · exact ⟨g, hg, hgh, by rw [hgi]; exact h2b, by omega⟩
-    · rcases k7b_reach (endT := endT) hsd3 (by rw [h3d]; rfl) (upAt_mono (t' := sd3.t) hup' (by omega)) hopen (by omega) with
+    · rcases k7b_reach (endT := endT) hsd3 (by rw [h3d]; rfl) (upBefore_of_upAt (t' := sd3.t) hup' (by omega)) hopen (by omega) with
         ⟨g, hg, hgh, hgi, hg1, _⟩ | ⟨o3, ho3, ho3t⟩
       · exact ⟨g, hg, hgh, by rw [hgi]; exact h3b, by omega⟩
       · exfalso
@@ -159,9 +159,9 @@ theorem query_chain {tr : Trace} {endT : Int} (h4 : K4 Cfg.paper tr endT = true)
     {tb : Int} (hupb : upAt tr h tb = true)
     {sq : SendE} (hsq : sq ∈ sends tr) (hdst : sq.dst = none) {known : List Svc}
     (hq : Item.query s.ty known false ∈ sq.items) (hk : known.contains s = false)
-    (hlo1 : t1 + 1350 ≤ sq.t) (hlo2 : tb + 1000 ≤ sq.t) (hend : sq.t + 1400 ≤ endT) :
+    (hlo1 : t1 + 1350 ≤ sq.t) (hlo2 : tb + 1001 ≤ sq.t) (hend : sq.t + 1400 ≤ endT) :
     ∃ o ∈ missing Cfg.paper tr endT, sq.t - 1000 ≤ o.t ∧ o.t ≤ sq.t + 1300 := by
-  rcases k7b_reach (endT := endT) hsq (by rw [hdst]; rfl) (upAt_mono (t' := sq.t) hA.ownerUp (by omega)) hA.ownerOpen (by omega) with
+  rcases k7b_reach (endT := endT) hsq (by rw [hdst]; rfl) (upBefore_of_upAt (t' := sq.t) hA.ownerUp (by omega)) hA.ownerOpen (by omega) with
     ⟨eq, heq, heqh, heqi, hq1, hq2⟩ | ⟨o, ho, hot⟩
   · obtain ⟨sr, hsr, _, hr1, hr2, hpf, hrd⟩ :=
       k4_of h4 heq (by omega) (by rw [heqi]; exact hq) hA.reg heqh.symm rfl hk (by omega) hA.noUnreg
@@ -169,7 +169,7 @@ theorem query_chain {tr : Trace} {endT : Int} (h4 : K4 Cfg.paper tr endT = true)
       rcases hrd with hrd | ⟨hf, _⟩
       · exact hrd
       · cases hf
-    rcases k7b_reach (endT := endT) hsr (by rw [hrdst]; rfl) (upAt_mono (t' := sr.t) hupb (by omega)) hopen (by omega) with
+    rcases k7b_reach (endT := endT) hsr (by rw [hrdst]; rfl) (upBefore_of_upAt (t' := sr.t) hupb (by omega)) hopen (by omega) with
       ⟨er, her, herh, heri, _, _⟩ | ⟨o, ho, hot⟩
     · exfalso
       have := hno er her herh
@@ -189,14 +189,14 @@ theorem held_of_announced {tr : Trace} {endT : Int} (hwf : WFP tr endT)
     held tr b.host s = true := by
   have key : ∃ e ∈ dlvs tr, e.h = b.host ∧ pos s e.items = true ∧ β + 225 ≤ e.t := by
     have hbase := hA.baseLe
-    cases hup : upAt tr b.host (β + 225) with
+    cases hup : upBefore tr b.host (β + 225) with
     | true =>
       obtain ⟨sd2, hsd2, _, h2t, h2d, h2p⟩ := mcastAt_iff.mp hA.ann2
       obtain ⟨sd3, hsd3, _, h3t, h3d, h3p⟩ := mcastAt_iff.mp hA.ann3
       rcases k7b_reach (endT := endT) hsd2 (by rw [h2d]; rfl) (by rw [h2t]; exact hup) hopen (by omega) with
         ⟨g, hg, hgh, hgi, hg1, _⟩ | ⟨o2, ho2, ho2t⟩
       · exact ⟨g, hg, hgh, by rw [hgi]; exact posFull_pos h2p, by omega⟩
-      · rcases k7b_reach (endT := endT) hsd3 (by rw [h3d]; rfl) (upAt_mono (t' := sd3.t) hup (by omega)) hopen (by omega) with
+      · rcases k7b_reach (endT := endT) hsd3 (by rw [h3d]; rfl) (upBefore_mono (t' := sd3.t) hup (by omega)) hopen (by omega) with
           ⟨g, hg, hgh, hgi, hg1, _⟩ | ⟨o3, ho3, ho3t⟩
         · exact ⟨g, hg, hgh, by rw [hgi]; exact posFull_pos h3p, by omega⟩
         · exfalso
@@ -204,13 +204,7 @@ theorem held_of_announced {tr : Trace} {endT : Int} (hwf : WFP tr endT)
           rw [this] at ho2t
           omega
     | false =>
-      have late : ∀ t, upAt tr b.host t = true → β + 225 < t := by
-        intro t ht
-        by_cases hlt : β + 225 < t
-        · exact hlt
-        · have := upAt_mono ht (show t ≤ β + 225 by omega)
-          rw [hup] at this
-          cases this
+      have late : ∀ t, upAt tr b.host t = true → β + 225 ≤ t := fun t ht => upAt_of_not_upBefore hup ht
       by_cases hex : ∃ e ∈ dlvs tr, e.h = b.host ∧ pos s e.items = true
       · obtain ⟨e, he, heh, hp⟩ := hex
         have := late e.t (heh ▸ (k7a_of h7 he).1)
